@@ -1,6 +1,23 @@
-import Ibx.Bytes
-open Ibx
+import Driver.Pure
+open Driver
 
-def main (args : List String) : IO UInt32 := do
-  IO.println s!"ibxdrv {args}"
+/-- one line in, one line out -/
+def step (line : String) : String :=
+  let toks := (line.trimAscii.toString.splitOn " ").filter (· ≠ "")
+  match pureHandler toks with
+  | some out => out
+  | none => "bad-op"
+
+partial def loop (hin hout : IO.FS.Stream) : IO Unit := do
+  let line ← hin.getLine
+  if line.isEmpty then return ()
+  hout.putStrLn (step line)
+  hout.flush
+  loop hin hout
+
+def main (_args : List String) : IO UInt32 := do
+  let hin ← IO.getStdin
+  let hout ← IO.getStdout
+  loop hin hout
+  hout.flush
   return 0
